@@ -26,6 +26,8 @@ def main(tier, seed):
         big = dict(scenarios.translated_range_scenarios(K))
         profcheck.run_scenarios(rep, "translated", [("%s:K=%d" % (pid, K), t) for pid, t in base], bins, PROP, trace=False,
                                 impl_progs={"%s:K=%d" % (pid, K): big[pid] for pid, _t in base})
+    # sequences far longer than the call-frame budget: long runs rejected by a filter, long chains, reduce / collect, continue on most passes
+    profcheck.run_scenarios(rep, "longruns", scenarios.long_run_scenarios(), bins, PROP)
     # break / continue / return leave no iteration state behind, also when the pass's variables were captured by closures that live on
     profcheck.run_scenarios(rep, "loopstate", scenarios.loop_state_scenarios(), bins, PROP)
     # strings are iterable too: one character per step, for every string of <= 3 characters over an alphabet with 1-, 2-, 3- (lead
